@@ -28,6 +28,7 @@ static long err_at = -1;     /* operation index that fails once */
 static int err_no = 0;
 static int log_fd = -1;
 static int active = 0;
+static int disk_full = 0;    /* set by a short write (crash_torn == 2 at err_at): every later write fails with ENOSPC */
 
 #define REAL(name) static __typeof__(name) *real_##name = NULL; if (!real_##name) real_##name = dlsym(RTLD_NEXT, #name)
 
@@ -35,7 +36,7 @@ void verif_arm(const char *pfx, long crash_k, int torn, long err_k, int eno, int
     strncpy(prefix, pfx, sizeof(prefix) - 1);
     prefix_len = strlen(prefix);
     crash_at = crash_k; crash_torn = torn; err_at = err_k; err_no = eno; log_fd = logfd;
-    counter = 0; active = 1;
+    counter = 0; active = 1; disk_full = 0;
     memset(tracked, 0, sizeof(tracked));
 }
 void verif_disarm(void) { active = 0; }
@@ -72,10 +73,15 @@ static int op(const char *kind, const char *what, long size, int is_write) {
     counter++;
     logop(kind, what, size);
     if (counter == crash_at) {
-        if (crash_torn && is_write) return 2;
+        if (crash_torn == 1 && is_write) return 2;
         _exit(137);
     }
-    if (counter == err_at) { errno = err_no; return 1; }
+    if (disk_full && is_write) { errno = ENOSPC; return 1; }
+    if (counter == err_at) {
+        /* the disk fills up inside this write: half of it is stored and the short count returned - no error yet */
+        if (crash_torn == 2 && is_write && size > 1) { disk_full = 1; return 3; }
+        errno = err_no; return 1;
+    }
     return 0;
 }
 static const char *fdname(int fd, char *buf, size_t n) { snprintf(buf, n, "fd%d", fd); return buf; }
@@ -109,6 +115,7 @@ ssize_t write(int fd, const void *buf, size_t n) {
         char nm[32]; int r = op("write", fdname(fd, nm, sizeof nm), (long)n, 1);
         if (r == 1) return -1;
         if (r == 2) { real_write(fd, buf, n / 2); _exit(137); }
+        if (r == 3) return real_write(fd, buf, n / 2);
     }
     return real_write(fd, buf, n);
 }
@@ -118,6 +125,7 @@ ssize_t pwrite(int fd, const void *buf, size_t n, off_t off) {
         char nm[32]; int r = op("write", fdname(fd, nm, sizeof nm), (long)n, 1);
         if (r == 1) return -1;
         if (r == 2) { real_pwrite(fd, buf, n / 2, off); _exit(137); }
+        if (r == 3) return real_pwrite(fd, buf, n / 2, off);
     }
     return real_pwrite(fd, buf, n, off);
 }
@@ -127,6 +135,7 @@ ssize_t pwrite64(int fd, const void *buf, size_t n, off64_t off) {
         char nm[32]; int r = op("write", fdname(fd, nm, sizeof nm), (long)n, 1);
         if (r == 1) return -1;
         if (r == 2) { real_pwrite64(fd, buf, n / 2, off); _exit(137); }
+        if (r == 3) return real_pwrite64(fd, buf, n / 2, off);
     }
     return real_pwrite64(fd, buf, n, off);
 }
@@ -137,6 +146,7 @@ ssize_t writev(int fd, const struct iovec *iov, int cnt) {
         char nm[32]; int r = op("write", fdname(fd, nm, sizeof nm), tot, 1);
         if (r == 1) return -1;
         if (r == 2) { REAL(write); if (cnt > 0) real_write(fd, iov[0].iov_base, iov[0].iov_len / 2); _exit(137); }
+        if (r == 3) { REAL(write); return cnt > 0 ? real_write(fd, iov[0].iov_base, iov[0].iov_len / 2) : 0; }
     }
     return real_writev(fd, iov, cnt);
 }
@@ -147,6 +157,7 @@ ssize_t sendfile(int out, int in, off_t *off, size_t n) {
         char nm[32]; int r = op("write", fdname(out, nm, sizeof nm), (long)n, 1);
         if (r == 1) return -1;
         if (r == 2) { real_sendfile(out, in, off, n > 1 ? n / 2 : n); _exit(137); }
+        if (r == 3) return real_sendfile(out, in, off, n / 2);
     }
     return real_sendfile(out, in, off, n);
 }
@@ -157,6 +168,7 @@ ssize_t sendfile64(int out, int in, off64_t *off, size_t n) {
         char nm[32]; int r = op("write", fdname(out, nm, sizeof nm), (long)n, 1);
         if (r == 1) return -1;
         if (r == 2) { real_sendfile64(out, in, off, n > 1 ? n / 2 : n); _exit(137); }
+        if (r == 3) return real_sendfile64(out, in, off, n / 2);
     }
     return real_sendfile64(out, in, off, n);
 }
@@ -166,6 +178,7 @@ ssize_t copy_file_range(int in, off64_t *oin, int out, off64_t *oout, size_t n, 
         char nm[32]; int r = op("write", fdname(out, nm, sizeof nm), (long)n, 1);
         if (r == 1) return -1;
         if (r == 2) { real_copy_file_range(in, oin, out, oout, n > 1 ? n / 2 : n, fl); _exit(137); }
+        if (r == 3) return real_copy_file_range(in, oin, out, oout, n / 2, fl);
     }
     return real_copy_file_range(in, oin, out, oout, n, fl);
 }
